@@ -74,6 +74,24 @@ def init_shape(ctx, rule='A5'):
         ctx.ob(rule, fkey(fn, rule, f'{nm}-rejected-before-init'), ok, fn.where,
                f'the base initialisation runs only after the {nm}-mapping test (which raises)',
                short(ts[0].ast) if ts else 'test missing')
+    # a choice is a duplicate when the *choice node* was mapped before - whatever object maps it
+    lps = [n for n in cfg.nodes if n.kind == 'for' and norm(n.ast.iter) == 'self._choice_mappings']
+    if not lps:
+        raise AnalysisError('initialize_choices: loop over the registered mappings not found')
+    tg = lps[0].ast.target
+    if isinstance(tg, ast.Tuple) and isinstance(tg.elts[0], ast.Name):
+        accepted = {tg.elts[0].id}
+    elif isinstance(tg, ast.Name):
+        accepted = {f'{tg.id}[0]'}
+    else:
+        raise AnalysisError('initialize_choices: unrecognised loop target over the registered mappings')
+    mem = [x for st in lps[0].ast.body for x in ast.walk(st) if isinstance(x, ast.Compare) and len(x.ops) == 1 and
+           isinstance(x.ops[0], (ast.In, ast.NotIn))]
+    ok = bool(mem) and all(norm(x.left) in accepted for x in mem)
+    ctx.ob(rule, fkey(fn, rule, 'duplicate-keyed-by-choice-node'), ok, f'{fn.module.relpath}:{lps[0].lineno}',
+           'whether a supplementary choice is mapped twice is decided by looking up the choice node itself among '
+           'the choice nodes seen so far (two different mapping objects for one choice are a duplicate)',
+           '; '.join(short(x) for x in mem) or 'no membership test in the loop')
     txt = FnText(ctx, fn)
     ok = 'unmapped_choice_nodes = set(self.choice_nodes) - mapped_choice_nodes' in txt
     ctx.ob(rule, fkey(fn, rule, 'unmapped-is-set-difference'), ok, fn.where,
@@ -242,6 +260,34 @@ def abstract_complete(ctx, rule='A12'):
                f'them', '')
 
 
+def sup_node_identity(ctx, rule='A8n'):
+    """Documented contract of SupNode: nodes are the same node iff name and repr(ref) agree.  The identity string
+    therefore embeds the reference through repr (`{ref!r}` / repr(ref)), never through str (1 and '1' would be one
+    node, and two options of a mapped choice would collapse into one)."""
+    fn = ctx.fn('adsg_core.graph.sup.nodes:SupNode._get_obj_id')
+    if len(fn.params) < 3:
+        raise AnalysisError('SupNode._get_obj_id: signature changed')
+    ref = fn.params[2]
+    uses = []
+    parents = {}
+    for p in ast.walk(fn.node):
+        for ch in ast.iter_child_nodes(p):
+            parents[id(ch)] = p
+    for x in ast.walk(fn.node):
+        if isinstance(x, ast.Name) and x.id == ref and isinstance(x.ctx, ast.Load):
+            par = parents.get(id(x))
+            if isinstance(par, ast.FormattedValue):
+                uses.append((x, par.conversion == 114 and par.format_spec is None))
+            elif isinstance(par, ast.Call) and call_name(par) == 'repr':
+                uses.append((x, True))
+            else:
+                uses.append((x, False))
+    ok = bool(uses) and all(good for _, good in uses)
+    ctx.ob(rule, fkey(fn, rule, 'identity-embeds-repr-of-ref'), ok, fn.where,
+           'the node identity embeds repr(ref): references of different type with the same str() stay different nodes',
+           short(fn.body[-1], 80))
+
+
 def check(ctx):
     resolve_shape(ctx)
     init_shape(ctx)
@@ -253,6 +299,7 @@ def check(ctx):
     edges.check_walks(ctx, categories={'derivation'}, anchors=[f'{SUP}:SupSelChoiceOptionMapping.resolve'])
     ctx.floor('A5', 9, 'resolve / initialise guards')
     ctx.floor('A6', 10, 'provenance of the applied option')
+    sup_node_identity(ctx)
 
 
 from ..selftest import V  # noqa: E402
@@ -265,6 +312,12 @@ VARIANTS = [
     V('partial-result-returned', 'graph/sup/dsg.py',
       [("        if not sup_dsg.final:\n            raise RuntimeError('Resolved SupDSG is not final; choice nodes remain!')\n", "")],
       key='result-final-required'),
+    V('sup-node-identity-by-str', 'graph/sup/nodes.py', [("return f'{name}|{ref!r}'", "return f'{name}|{ref}'")], key='identity-embeds-repr-of-ref'),
+    V('twin-sup-node-identity-by-repr-call', 'graph/sup/nodes.py', [("return f'{name}|{ref!r}'", "return name + '|' + repr(ref)")], expect='silent'),
+    V('duplicates-by-mapping-object', 'graph/sup/dsg.py',
+      [("        for choice_node, _ in self._choice_mappings:\n            if choice_node in mapped_choice_nodes:\n                dup_mapped.append(choice_node)\n            else:\n                mapped_choice_nodes.add(choice_node)\n",
+        "        seen = set()\n        for choice_mapping in self._choice_mappings:\n            if choice_mapping in seen:\n                dup_mapped.append(choice_mapping[0])\n            else:\n                seen.add(choice_mapping)\n        mapped_choice_nodes = {c for c, _ in seen}\n")],
+      key='duplicate-keyed-by-choice-node'),
     V('duplicates-accepted', 'graph/sup/dsg.py',
       [("        if len(dup_mapped) > 0:\n            raise RuntimeError(f'Duplicate mapped choice nodes: {dup_mapped!r}')\n", "")],
       key='duplicate-rejected-before-init'),
